@@ -98,7 +98,7 @@ func ruleC16(p *Prog, r *Res) {
 			r.Bad(ruleA, "importPcapJob: updated mask from FromPcap", p.Pos(jf.Node()), "cannot identify the updated-streams result of builder.FromPcap in importPcapJob")
 		}
 		idxFld := p.Field("manager", "Manager", "indexes")
-		for _, comp := range ctx.postedIn(jf) {
+		for _, comp := range ctx.completionsIn(jf) {
 			fl := p.Flow(comp)
 			cinfo := comp.Pkg.TypesInfo
 			publishes := fl.Find(func(n ast.Node) bool {
@@ -160,7 +160,7 @@ func ruleC16(p *Prog, r *Res) {
 	nB := 0
 	// tagging completion
 	if jf := p.Fn("manager.Manager.updateTagJob"); jf != nil {
-		for _, comp := range ctx.postedIn(jf) {
+		for _, comp := range ctx.completionsIn(jf) {
 			info := comp.Pkg.TypesInfo
 			fl := p.Flow(comp)
 			tagsFld := p.Field("manager", "Manager", "tags")
@@ -220,8 +220,15 @@ func ruleC16(p *Prog, r *Res) {
 	}
 	// mark add: inside UpdateTag's worker, where Matches.Set(s) happens, the queue gets Set(s) for every converter
 	if f := p.Fn("manager.Manager.UpdateTag"); f != nil {
-		for _, posted := range ctx.postedIn(f) {
-			for _, w := range posted.Lits {
+		{
+			// every service-goroutine function that sets a bit of a tag's Matches (the mark-add path, wherever it lives)
+			var cands []*Fn
+			for _, g := range p.FnList {
+				if g.Short == "manager" && ctx.Has(g, ctxLOOP) && g.Key() != "manager.Manager.updateTagJob$1" {
+					cands = append(cands, g)
+				}
+			}
+			for _, w := range cands {
 				info := w.Pkg.TypesInfo
 				fl := p.Flow(w)
 				sets := fl.Find(func(n ast.Node) bool {
